@@ -56,7 +56,8 @@ func HarnessC12Events() {
 		}
 	}
 	ctx, cancel := context.WithCancel(context.Background())
-	if nondetBool() {
+	closedCh := nondetBool()
+	if closedCh {
 		close(evCh)
 	} else {
 		// the context is cancelled at some point: the watcher may stop early
@@ -66,6 +67,11 @@ func HarnessC12Events() {
 	cancel()
 	left := len(evCh)
 	consumedAll := left == 0
+	if closedCh {
+		// nothing but the end of the event stream (or shutdown) ends the watch: half-attached attempts
+		// that come and go before the first full shell must not make it give up
+		verifAssert(consumedAll, "C12.watcher-keeps-watching-until-the-event-stream-ends")
+	}
 	closing, _ := countLines(och, ClosingListenerMessage)
 	_ = closing
 	if !s.oneShell {
